@@ -21,7 +21,7 @@ namespace ratio
     void atom_flaw::compute_resolvers()
     {
         assert(get_solver().get_sat_core().value(get_phi()) != False);
-        assert(get_solver().get_sat_core().value(atm.get_sigma()) != False);
+        // notice that the atom's sigma might already be false (the constraints on the atom's arguments rule out its rule): activating it will fail..
         if (get_solver().get_sat_core().value(atm.get_sigma()) == Undefined) // we check if the atom can unify..
             for (const auto &i : atm.get_type().get_instances())
             { // we check for possible unifications (i.e. all the instances of the atom's type)..
